@@ -35,6 +35,7 @@ NONE = Ty('none')
 FLOAT = Ty('float')
 BYTEARRAY = Ty('list', INT, 'bytearray')       # mutable; elements range-checked at stores (ValueError)
 BYTES = Ty('list', INT, 'bytes')  # immutable byte string: a list object that the subset never mutates
+SIO = Ty('list', INT, 'sio')      # io.StringIO: the list of the TOKENS written to it (see methods.sio_write)
 OPAQUE = Ty('opaque')             # values never inspected (line ids, match objects ...)
 FN = Ty('fn')                     # a function value of the operator module (its code)
 CFG = Ty('cfg')                   # a node of the parsed YAML/JSON configuration (dict / list / scalar), read-only
@@ -168,7 +169,7 @@ class TypeEnv:
         if isinstance(n, ast.Name):
             nm = n.id
             prim = {'int': INT, 'bool': BOOL, 'str': STR, 'float': FLOAT, 'bytearray': BYTEARRAY,
-                    'bytes': BYTES, 'None': NONE, 'opaque': OPAQUE, 'cfg': CFG, 'union': Ty('union'),
+                    'bytes': BYTES, 'None': NONE, 'opaque': OPAQUE, 'cfg': CFG, 'union': Ty('union'), 'sio': SIO,
                     'match': Ty('match')}
             if nm in prim:
                 return prim[nm]
